@@ -108,6 +108,10 @@ fn monitor_result(rec: &mut Rec, n: usize, what: &str, r: &Sop, want: &[bool], i
     let size = 1usize << n;
     let vals: Vec<bool> = (0..size).map(|m| r.value(m)).collect();
     rec.chk("denotes", vals == want && r.num_vars() == n, what, || format!("{}: value() does not denote the expected function (got {:?})", what, r.to_string()));
+    if r.num_vars() != n {
+        // reported by `denotes` above; a result claiming another arity is not tabulated
+        return;
+    }
     let l = Lut::from(r);
     let lm = Model::from_blocks(n, l.blocks());
     rec.chk("denotes-via-lut", lm.bits == want && l.num_vars() == n, what, || format!("{}: Lut::from(&sop) = {} is not the expected function", what, l));
